@@ -197,7 +197,9 @@ Definition c06_pair_ok (prev cur : step_obs) : bool :=
   match so_result cur with
   | OErr _ =>
     list_eqb row_eqb (so_list prev) (so_list cur) &&
-    option_eqb (list_eqb snap_eqb) (so_snapshot prev) (so_snapshot cur) &&
+    (* no state file and a file describing the empty configuration restore alike *)
+    list_eqb snap_eqb (match so_snapshot prev with Some l => l | None => [] end)
+                      (match so_snapshot cur with Some l => l | None => [] end) &&
     probed_eqb (so_probed prev) (so_probed cur) &&
     list_eqb (fun a b => resp_obs_eqb (snd a) (snd b)) (so_requests prev) (so_requests cur)
   | _ => true
@@ -210,7 +212,8 @@ Fixpoint c06_ok (prev : option step_obs) (h : list step_obs) : bool :=
     (match prev with
      | Some p => c06_pair_ok p o
      | None => match so_result o with
-               | OErr _ => match so_list o, so_probed o with [], [] => true | _, _ => false end
+               | OErr _ => match so_list o, so_probed o, so_snapshot o with
+                           | [], [], (None | Some []) => true | _, _, _ => false end
                | _ => true end
      end) && c06_ok (Some o) r
   end.
@@ -218,3 +221,27 @@ Fixpoint c06_ok (prev : option step_obs) (h : list step_obs) : bool :=
 (** no step may panic (C18's sequential part, also needed by C11) *)
 Definition no_panic (h : list step_obs) : bool :=
   forallb (fun o => match so_result o with OPanic => false | _ => true end) h.
+
+(** C11: the same history run once without and once with a restart inserted
+    before step [k]; from there on every observable must coincide (the serving
+    target may differ within the service's target set: rotation position is
+    not part of the saved state). *)
+Definition res_obs_eqb (a b : res_obs) : bool :=
+  match a, b with
+  | OOk, OOk | OPanic, OPanic | OOther, OOther => true
+  | OErr x, OErr y => err_eqb x y
+  | _, _ => false
+  end.
+
+Definition step_equiv (a b : step_obs) : bool :=
+  res_obs_eqb (so_result a) (so_result b) &&
+  list_eqb row_eqb (so_list a) (so_list b) &&
+  option_eqb (list_eqb snap_eqb) (so_snapshot a) (so_snapshot b) &&
+  probed_eqb (so_probed a) (so_probed b) &&
+  list_eqb (fun x y => resp_obs_eqb (snd x) (snd y)) (so_requests a) (so_requests b).
+
+Definition c11_ok (h_orig h_restarted : list step_obs) (k : nat) : bool :=
+  list_eqb step_equiv (skipn k h_orig) (skipn (S k) h_restarted) &&
+  no_panic h_restarted.
+
+Definition c05_ok (h : list step_obs) : bool := forallb c05_step_ok h.
